@@ -63,12 +63,28 @@ Proof. exact ok_sound_done. Qed.
 Theorem timeout_or_failure_is_failure : forall errors timed_out,
     timed_out = true \/ 1 <= errors ->
     verdict KWorker errors (on_finish_flag timed_out) = [SFailure] /\
-    (1 <= errors -> verdict KLoad errors (on_finish_flag timed_out) = [SFailure]).
+    verdict KLoad errors (on_finish_flag timed_out) = [SFailure].
 Proof.
   intros errors timed_out H. cbn [verdict]. rewrite gen_worker_fails, gen_load_ok, gen_flag. split.
   - destruct H as [->|H]; [rewrite orb_true_r; reflexivity|].
     destruct (Nat.ltb_spec 0 errors); [reflexivity|lia].
-  - intros He. destruct (Nat.eqb_spec errors 0); [lia|reflexivity].
+  - destruct H as [->|H]; [rewrite andb_false_r; reflexivity|].
+    destruct (Nat.eqb_spec errors 0); [lia|reflexivity].
+Qed.
+
+(** Which requests are covered by [no_hang]: every scattering verb gets the
+    worker timeout as its deadline — worker verbs, queries / status / metrics,
+    hard stop, load-state — except the soft stop, which waits for the sessions
+    to drain for as long as that takes (open finding no-deadline-softstop; the
+    static-configuration reload, not driven here, is the other one). *)
+Theorem deadline_coverage :
+  tmo_worker = TDefault /\ tmo_query = TDefault /\ tmo_hardstop = TDefault /\ tmo_load = TDefault /\
+  tmo_softstop = TNone /\
+  forall h c k h' tid, new_task h c k TDefault = (h', tid) ->
+    exists t, In t (tasks h') /\ t_id t = tid /\ t_deadline t = Some (now h + timeout h)%N.
+Proof.
+  repeat split; try reflexivity. intros h c k h' tid H. unfold new_task in H. inversion H; subst; clear H.
+  eexists. split; [cbn [tasks]; apply in_or_app; right; left; reflexivity|]. split; reflexivity.
 Qed.
 
 (** 4. A response is counted only for the task its request id was issued for:
